@@ -382,5 +382,43 @@ class SetNodesWeightsEvals(Contract):
         return {"kind": "C15.nodes_after_fault"}
 
 
-CONTRACTS += [GetPointsAndWeights(), SetNodesWeightsEvals()]
+class HasBasisGrid(Contract):
+    file, qualname = "sparseSpACE/StandardCombi.py", "StandardCombi.has_basis_grid"
+    trusted = True
+    note = "pure query of the strategy object"
+
+    def inputs(self, S):
+        return {"self": Obj("StandardCombi", {})}
+
+    def result(self, S, env):
+        return S.bool("has_basis_grid")
+
+
+class ScaleValues(Contract):
+    file, qualname = "sparseSpACE/GridOperation.py", "UncertaintyQuantification._scale_values"
+    trusted = True
+    note = "multiplies every value by a constant factor: as many values as before (numpy)"
+
+    def inputs(self, S):
+        return {"self": Obj("UncertaintyQuantification", {}), "values": S.seq("values", S.int("nv"), R, kind="array")}
+
+    def result(self, S, env):
+        n = env["values"].len()
+        return S.seq("scaled.values", n, R, kind="array")
+
+
+class SetNodesWeightsEvalsScaled(SetNodesWeightsEvals):
+    """the branch for basis grids (scale_weights=True): the weights are rescaled, nodes and model values as in the other branch"""
+    total = False       # the branch asserts that the strategy has a basis grid
+
+    def __init__(self):
+        self.label = "UncertaintyQuantification._set_nodes_weights_evals[scale_weights]"
+
+    def inputs(self, S):
+        d = SetNodesWeightsEvals.inputs(self, S)
+        d["scale_weights"] = True
+        return d
+
+
+CONTRACTS += [GetPointsAndWeights(), HasBasisGrid(), ScaleValues(), SetNodesWeightsEvals(), SetNodesWeightsEvalsScaled()]
 ASSUMPTIONS += ["_set_nodes_weights_evals: the model is a pure function of the node (uninterpreted f_model); get_points_and_weights returns as many weights as points (trusted); scale_weights False"]
